@@ -114,6 +114,22 @@ Theorem modict_inv_all_ops : forall ps0 ops, inv (m_run (m_adds ps0 empty) ops).
 Proof. exact (fun ps0 ops => m_run_inv ops _ (inv_m_adds ps0 empty inv_empty)). Qed.
 Print Assumptions modict_inv_all_ops.
 
+(* two live modicts a and b: an operation on one NEVER changes the other -- also reorder / update that take
+   the other modict as argument (the model is value based: no list is shared) -- and both stay consistent
+   over every op sequence; the correspondence observes BOTH real objects after every step *)
+Theorem modict_ops_never_change_another : forall (a b : mod_) x,
+  match x with
+  | OnA _ | AReorderB | AUpdateB => snd (fst (m2_step (a, b) x)) = b
+  | OnB _ | BReorderA | BUpdateA => fst (fst (m2_step (a, b) x)) = a
+  end.
+Proof. exact m2_other_unchanged. Qed.
+Print Assumptions modict_ops_never_change_another.
+
+Theorem modict_pair_inv_all_ops : forall pa pb ops,
+  inv (fst (m2_run (m_adds pa empty, m_adds pb empty) ops)) /\ inv (snd (m2_run (m_adds pa empty, m_adds pb empty) ops)).
+Proof. exact (fun pa pb ops => m2_run_inv ops (m_adds pa empty, m_adds pb empty) (conj (inv_m_adds pa empty inv_empty) (inv_m_adds pb empty inv_empty))). Qed.
+Print Assumptions modict_pair_inv_all_ops.
+
 (* oset.pop() returns and removes the element added last, pop(last=False) the earliest, KeyError if empty *)
 Theorem oset_pop_order : forall s k,
   (~ In k s -> s_step (s ++ [k]) (SPop true) = (s, TInt k)) /\ s_step (k :: s) (SPop false) = (s, TInt k) /\
